@@ -1537,8 +1537,15 @@ class TransactionBuilder:
         if not collateral_return_address:
             return
 
-        collateral_amount = (
-            max_tx_fee(context=self.context, ref_script_size=self._ref_script_size())
+        # The fee can be as large as max_tx_fee plus the fee buffer, and the ledger requires
+        # 100 * collateral >= collateral_percent * fee, hence the rounding up.
+        collateral_amount = -(
+            -(
+                max_tx_fee(
+                    context=self.context, ref_script_size=self._ref_script_size()
+                )
+                + (self.fee_buffer or 0)
+            )
             * self.context.protocol_param.collateral_percent
             // 100
         )
